@@ -21,6 +21,7 @@ RULE = (
     "Dicts/Records row modes, read(), chunked iterator, merge_readers; ascending and descending; class unsorted "
     "plants one inversion (first/middle/last row or chunk boundary) and expects a rejection. Non-trivial = >=2 "
     "inputs and a score value occurring in >=2 different inputs; distinct = (seed,index,rep)."
+    " The score / priority column is the caller's choice (score, svm_score, q), half of the renamed inputs also carry an unrelated unsorted column called 'score'; merge_sort called with the column positionally or by keyword."
 )
 ASSUMPTIONS = ["inputs are written with pandas/pyarrow by the harness; values are compared after the same "
                "library's round trip (type inference of text is C13's business)"]
@@ -131,20 +132,39 @@ def run_merge_sort(case):
         fmt = "parquet" if rep % 2 else "csv"
         total = sum(len(f) for f in frames)
         outs = {}
+        # the column to merge on is the caller's choice; a third of the inputs use another name, half of those also
+        # carry an unrelated (unsorted) column that happens to be called "score"
+        sc = str(rng.choice(["score", "score", "svm_score", "q"]))
+        distract = bool(sc != "score" and rng.random() < 0.5)
+        files = []
+        for f in frames:
+            g = f.rename(columns={"score": sc})
+            if distract:
+                g["score"] = rng.permutation(len(g)).astype(float)
+            files.append(g)
+
+        def norm(df):
+            df = df.drop(columns=["score"]) if distract else df
+            return df.rename(columns={sc: "score"})
+
         with core.scratch("c14") as d:
-            paths = write_inputs(frames, d, fmt, rng)
+            paths = write_inputs(files, d, fmt, rng)
             # expected values after the library's own round trip
-            back = [pd.read_parquet(p) if fmt == "parquet" else pd.read_csv(p, sep="\t") for p in paths]
+            back = [norm(pd.read_parquet(p) if fmt == "parquet" else pd.read_csv(p, sep="\t")) for p in paths]
             sizes = sorted({1, 2, int(rng.integers(1, total + 2)), total + 1})
             for cs in sizes:
                 with core.chunk_sizes(MERGE_SORT_CHUNK_SIZE=cs):
-                    c = core.Call(lambda: list(utils.merge_sort(paths, score_column="score")))
+                    if cs % 2:
+                        c = core.Call(lambda: list(utils.merge_sort(paths, score_column=sc)))
+                    else:
+                        c = core.Call(lambda: list(utils.merge_sort(paths, sc)))
                 evals += 1
-                extra = dict(fmt=fmt, tie=tie, k=len(frames), lens=[len(f) for f in frames], chunk=cs)
+                extra = dict(fmt=fmt, tie=tie, k=len(frames), lens=[len(f) for f in frames], chunk=cs, score_column=sc, distractor=distract)
                 if not c.ok:
                     res.violate("crash", c.sig, msg=c.info["msg"], **extra)
                     continue
-                judge_rows(res, c.value, back, False, "merge_sort", extra)
+                rows = norm(pd.DataFrame(c.value)).to_dict("records") if c.value else []
+                judge_rows(res, rows, back, False, "merge_sort", extra)
                 outs[cs] = [int(r["id"]) for r in c.value]
             # chunk-size independence as multisets per tie group == already implied by the judge;
             # additionally the id order for tie-free input must be identical
@@ -191,20 +211,35 @@ def run_table_merger(case):
         frames, tie = gen_inputs(rng, ascending=ascending, kmax=6, nmax=60)
         src = ["df", "csv", "parquet"][rep % 3]
         total = sum(len(f) for f in frames)
+        # priority column chosen by the caller; sometimes with an unrelated column called "score" beside it
+        sc = str(rng.choice(["score", "score", "svm_score", "q"]))
+        distract = bool(sc != "score" and rng.random() < 0.5)
+        orig_frames = frames
+        frames = []
+        for f in orig_frames:
+            g = f.rename(columns={"score": sc})
+            if distract:
+                g["score"] = rng.permutation(len(g)).astype(float)
+            frames.append(g)
+
+        def norm(df):
+            df = df.drop(columns=["score"]) if distract else df
+            return df.rename(columns={sc: "score"})
+
         with core.scratch("c14") as d:
             paths = write_inputs(frames, d, "parquet" if src == "parquet" else "csv", rng) if src != "df" else None
-            back = frames if src == "df" else [
-                pd.read_parquet(p) if src == "parquet" else pd.read_csv(p, sep="\t") for p in paths]
+            back = [norm(f) for f in frames] if src == "df" else [
+                norm(pd.read_parquet(p) if src == "parquet" else pd.read_csv(p, sep="\t")) for p in paths]
             for rcs in sorted({1, int(rng.integers(1, total + 2)), total + 1}):
                 extra = dict(src=src, tie=tie, ascending=ascending, k=len(frames), lens=[len(f) for f in frames],
-                             reader_chunk=rcs)
+                             reader_chunk=rcs, priority_column=sc, distractor=distract)
                 for api in ("rows_df", "rows_dicts", "rows_records", "read", "chunked", "merge_readers"):
                     def go():
                         rd = _readers(frames, paths, src)
                         if api == "merge_readers":
-                            return _rows_from(st.merge_readers(rd, "score", descending=not ascending,
+                            return _rows_from(st.merge_readers(rd, sc, descending=not ascending,
                                                                reader_chunk_size=rcs), api)
-                        m = st.MergedTabularDataReader(rd, "score", descending=not ascending,
+                        m = st.MergedTabularDataReader(rd, sc, descending=not ascending,
                                                        reader_chunk_size=rcs)
                         if api == "rows_df":
                             return _rows_from(m.get_row_iterator(row_type=td.TableType.DataFrame), api)
@@ -227,8 +262,9 @@ def run_table_merger(case):
                         else:
                             res.violate("crash", c.sig + "/" + api, msg=c.info["msg"], **extra)
                         continue
-                    judge_rows(res, c.value, back, ascending, api, extra)
-        if _nontrivial(frames):
+                    rows = norm(pd.DataFrame(c.value)).to_dict("records") if c.value else []
+                    judge_rows(res, rows, back, ascending, api, extra)
+        if _nontrivial(orig_frames):
             nt += 1
     res["evals"] = evals
     res["distinct_n"] = nt
